@@ -406,6 +406,13 @@ def main(tier, seed):
                 disagreements += 1
                 res.violation("model ExpPP.v prints %s, exppp prints %s for the tree %s" % (" ".join(want), " ".join(got), src_tree(t)),
                               {"input_file": save("c07-rich-%d.exp" % k, text), "theorem_or_correspondence": "correspondence C07: coq/ExpPP.v vs pretty_expr.c"}, found_input=False)
+    # string literals with apostrophes, dots and long dot-free stretches at every line length
+    STR_SCHEMA = ("SCHEMA strs;\nENTITY e;\n nm : STRING;\nWHERE\n"
+                  " w1 : nm <> 'the owner''s name of this product''s category is not the owner''s own idea of a name';\n"
+                  " w2 : 'STRS.E.SOME_RATHER_LONG_ATTRIBUTE_NAME.AND_ANOTHER.ONE''S' IN TYPEOF (SELF);\n"
+                  " w3 : nm LIKE 'it''s';\nEND_ENTITY;\nEND_SCHEMA;\n")
+    sweep = list(range(20, 135)) if tier == "quick" else list(range(10, 260))
+    roundtrip("strs", STR_SCHEMA, sweep, "rich")
     shipped = ["test/unitary_schemas/function.exp", "test/unitary_schemas/entity_where_rule.exp", "data/pdm/pdm_schema_12.exp"] if tier == "quick" else \
         sorted(os.path.relpath(p, REPO) for p in glob.glob(os.path.join(REPO, "data", "*", "*.exp")) + glob.glob(os.path.join(REPO, "test", "unitary_schemas", "*.exp")))
     for rel in shipped:
